@@ -45,8 +45,6 @@ var channels = []channel{
 		B: `echo "b"; throw new Exception("from-b");`},
 	{Name: "shutdown-function", A: `register_shutdown_function(function() { echo "A-shutdown"; }); echo "a";`,
 		B: `register_shutdown_function(function() { echo "B-shutdown"; }); echo "b";`},
-	{Name: "autoloader", A: `spl_autoload_register(function($c) { echo "A-autoload:", $c; }); echo class_exists('C20Missing1') ? 'y' : 'n';`,
-		B: `echo class_exists('C20Missing2') ? 'y' : 'n';`},
 	{Name: "error-handler", A: `set_error_handler(function($no, $msg) { echo "A-errh:", $msg; return true; }); trigger_error("ea", E_USER_WARNING); echo "a";`,
 		B: `echo "b"; trigger_error("eb", E_USER_WARNING); echo "after";`},
 	{Name: "class-alias", A: `class C20Orig { function n() { return 'o'; } } class_alias('C20Orig', 'C20Alias'); $x = new C20Alias(); echo $x->n();`,
@@ -58,19 +56,26 @@ var channels = []channel{
 	{Name: "object-ids-spl", A: `$keep = []; for ($i = 0; $i < 5; $i++) { $keep[] = new stdClass; } echo count($keep);`,
 		B: `$o = new stdClass; $p = new stdClass; echo spl_object_id($o) == spl_object_id($o) ? 'same' : 'diff', spl_object_id($o) == spl_object_id($p) ? 'same' : 'diff';`},
 
+	{Name: "error-reporting-level", A: `error_reporting(0); echo "a";`, B: `echo error_reporting();`},
+	{Name: "header-callback-list", A: `header_register_callback(function() { echo "A-header-callback;"; });`, B: `echo "b";`},
+	{Name: "output-buffer-three-levels", A: `ob_start(); echo "1"; ob_start(); echo "2"; ob_start(); echo "3";`,
+		B: `ob_start(); echo "b1"; ob_start(); echo "b2"; $x = ob_get_clean(); $y = ob_get_clean(); echo $y, "|", $x, ob_get_level();`},
+
 	// listed residue channels (package-level state shared by all VMs of a process)
 	{Name: "ini-store", Known: "residue:cell:std/php/core.iniStore", A: `ini_set('precision', '3'); echo ini_get('precision');`,
 		B: `echo json_encode(ini_get('precision'));`},
-	{Name: "error-reporting-level", Known: "residue:cell:std/php.errorReportingLevel", A: `error_reporting(0); echo "a";`,
-		B: `echo error_reporting();`},
 	{Name: "var-dump-object-handles", Known: "residue:cell:std/php.varDumpObjIDs", A: `$a = new stdClass; $b = new stdClass; $c = new stdClass; var_dump($a); var_dump($b); var_dump($c);`,
 		B: `$o = new stdClass; $o->p = 1; var_dump($o);`},
 	{Name: "include-once-cache", Known: "residue:cell:node.includeOnceCache", A: `include_once __DIR__ . '/c20_inc.php'; echo c20_included();`,
 		B: `include_once __DIR__ . '/c20_inc.php'; echo function_exists('c20_included') ? c20_included() : 'function-missing';`},
-	{Name: "superglobal-cache", Known: "residue:cell:node.serverValue", A: `$_SERVER['C20_MARK'] = 'from-A'; echo "a";`,
-		B: `echo isset($_SERVER['C20_MARK']) ? $_SERVER['C20_MARK'] : 'clean';`},
-	{Name: "header-callbacks", Known: "residue:cell:std/php/core.headerCallbacks", A: `header_register_callback(function() { echo "A-header-callback;"; });`,
-		B: `echo "b";`},
+	{Name: "superglobal-cache", Known: "residue:cell:node.superglobals", A: `$_SERVER['C20_MARK'] = 'from-A'; $_GET['C20_G'] = 'g'; $_ENV['C20_E'] = 'e'; echo "a";`,
+		B: `echo isset($_SERVER['C20_MARK']) ? $_SERVER['C20_MARK'] : 'clean', isset($_GET['C20_G']) ? 'G' : 'g', isset($_ENV['C20_E']) ? 'E' : 'e';`},
+	{Name: "argv-cache", Known: "residue:cell:node.argvValue", A: `$argv = ['from-A']; echo "a";`,
+		B: `echo is_array($argv) && count($argv) == 1 && $argv[0] === 'from-A' ? 'leak' : 'clean';`},
+	{Name: "header-output-started", Known: "residue:cell:std/php/core.headerOutputStarted", A: `echo "a";`,
+		B: `header_register_callback(function() { echo "B-header-callback;"; }); echo "b";`},
+	{Name: "autoloaders", Known: "residue:cell:parser.autoload", A: `spl_autoload_register(function($c) { echo "A-autoload:", $c, ";"; }); echo "a";`,
+		B: `echo class_exists('C20Missing2') ? 'y' : 'n';`},
 	{Name: "process-environment", Known: "residue:cell:process.os.Setenv", A: `putenv('C20_ENV_MARK=from-A'); echo "a";`,
 		B: `echo json_encode(getenv('C20_ENV_MARK'));`},
 }
@@ -91,6 +96,14 @@ func (e *env) vmAlone(ps []*prog, reps int) {
 		if r.OK && len(r.Ans.Distinct[0]) == 1 {
 			o := r.Ans.Distinct[0][0]
 			ps[i].vmOutcome = &o
+		} else if r.OK && len(r.Ans.Distinct[0]) > 1 {
+			t := &tally{}
+			for j, o := range r.Ans.Distinct[0] {
+				for n := 0; n < r.Ans.Counts[0][j]; n++ {
+					t.add(o, ps[i].MaskLog)
+				}
+			}
+			ps[i].vmUnstable = t.describe()
 		}
 	}
 }
@@ -112,6 +125,14 @@ func (e *env) pairCheck(cases []pairCase, main bool) {
 	var jobs []vmJob
 	var idx []int
 	for i, pc := range cases {
+		if pc.B.vmOutcome == nil && pc.Sig != "" && pc.B.vmUnstable != "" {
+			// the probe alone already shows different outcomes on successive fresh VMs of one process: what an
+			// earlier run (of the probe itself) left behind is visible
+			c.Eval("pair:"+pc.A.Src+"\x00"+pc.B.Src, true)
+			c.Violation(pc.Sig, fmt.Sprintf("the probe %s run on successive fresh VMs of one process shows different outcomes: %s", pc.B.Name, clip(pc.B.vmUnstable, 600)),
+				repCase{Kind: "pair", P: stripped(pc.B), A: ptr(stripped(pc.A)), Mode: pc.Sig})
+			continue
+		}
 		if pc.B.vmOutcome == nil || pc.A.NoVM || pc.B.NoVM {
 			c.Hit("pair.skipped-B-not-stable-alone")
 			continue
